@@ -170,19 +170,28 @@ def effectiveNames (origs : List Str) (names : Option (List Str)) : List Str :=
   | some [] => origs
   | some ns => ns ++ List.replicate (origs.length - ns.length) []
 
+/-- `data[:, :len(self.curves)]` when `truncate` -/
+def setDataRows (ncurves : Nat) (rows : List (List Cell)) (truncate : Bool) : List (List Cell) :=
+  if truncate then rows.map (fun r => r.take ncurves) else rows
+
+/-- the loop `for i, curve in enumerate(self.curves): curve.mnemonic = names[i]; curve.data = data[:, i]` for an array
+of width `w`, followed by `assign_duplicate_suffixes()` when the loop did not raise -/
+def LasCurves.assignCols (L : LasCurves) (rows : List (List Cell)) (w : Nat) (names : Option (List Str)) :
+    LasCurves × CvResult :=
+  let names1 := effectiveNames L.sec.origs names
+  let items2 := cvMapIdx (fun i it => if i ≤ w then renameItem it (names1.getD i []) else it) 0 L.sec.items
+  let data2 := cvMapIdx (fun i d => if i < w then cvColumn rows i else d) 0 L.data
+  if L.sec.items.length ≤ w then
+    (⟨Section.assignAll { L.sec with items := items2 }, data2⟩, .ok)
+  else (⟨{ L.sec with items := items2 }, data2⟩, .indexError)
+
 /-- `set_data(array_like, names, truncate)` for a 2-D array given as its list of rows -/
 def LasCurves.setData (L : LasCurves) (rows : List (List Cell)) (names : Option (List Str)) (truncate : Bool) :
     LasCurves × CvResult :=
-  let rows1 := if truncate then rows.map (fun r => r.take L.sec.items.length) else rows
+  let rows1 := setDataRows L.sec.items.length rows truncate
   let w := cvRowsWidth rows1
   if 0 < rows1.length * w then
-    let L1 := L.extend (w - L.sec.items.length)
-    let names1 := effectiveNames L1.sec.origs names
-    let items2 := cvMapIdx (fun i it => if i ≤ w then renameItem it (names1.getD i []) else it) 0 L1.sec.items
-    let data2 := cvMapIdx (fun i d => if i < w then cvColumn rows1 i else d) 0 L1.data
-    if L1.sec.items.length ≤ w then
-      (⟨Section.assignAll { L1.sec with items := items2 }, data2⟩, .ok)
-    else (⟨{ L1.sec with items := items2 }, data2⟩, .indexError)
+    (L.extend (w - L.sec.items.length)).assignCols rows1 w names
   else (⟨L.sec.assignAll, L.data⟩, .ok)
 
 /-! ### the operations as data -/
@@ -297,17 +306,20 @@ def specReplace (S : SpecCurves) (ix : Int) (c : CurveArg) : SpecCurves :=
 
 def cvBlankSpec : SpecCurve := ⟨[], [], [], [], []⟩
 
+/-- the rename-and-assign loop on the plain list -/
+def specAssignCols (S : SpecCurves) (rows : List (List Cell)) (w : Nat) (names : Option (List Str)) : SpecCurves :=
+  let names1 := effectiveNames (S.map (·.orig)) names
+  cvMapIdx (fun i c =>
+    ({ c with orig := if i ≤ w then names1.getD i [] else c.orig,
+              data := if i < w then cvColumn rows i else c.data } : SpecCurve)) 0 S
+
 /-- `set_data` on the plain list -/
 def specSetData (S : SpecCurves) (rows : List (List Cell)) (names : Option (List Str)) (truncate : Bool) :
     SpecCurves :=
-  let rows1 := if truncate then rows.map (fun r => r.take S.length) else rows
+  let rows1 := setDataRows S.length rows truncate
   let w := cvRowsWidth rows1
   if 0 < rows1.length * w then
-    let S1 := S ++ List.replicate (w - S.length) cvBlankSpec
-    let names1 := effectiveNames (S1.map (·.orig)) names
-    cvMapIdx (fun i c =>
-      ({ c with orig := if i ≤ w then names1.getD i [] else c.orig,
-                data := if i < w then cvColumn rows1 i else c.data } : SpecCurve)) 0 S1
+    specAssignCols (S ++ List.replicate (w - S.length) cvBlankSpec) rows1 w names
   else S
 
 /-- the same operations on the plain list; a mnemonic argument is resolved in the table `keys` of the current
